@@ -273,6 +273,16 @@ class Tree:
                 if neg: f_edge, t_edge = t_edge, f_edge
                 cond = self.norm_cond(oo)
                 out.append(dict(bb=b["i"], kind="bool", cond=cond, t_edge=t_edge, f_edge=f_edge, raw=oo))
+                # a boolean decided in several places and tested once (`let dup = match mode { A => x.contains(k), B => y.contains(k) }; if dup {..}`):
+                # on the paths that come through one alternative the test *is* the test of that alternative
+                if isinstance(oo, tuple) and oo[0] == "phi" and not os.environ.get("VERIF_DEV_NO_MERGEDCOND"):
+                    for alt in oo[2]:
+                        an, aneg = alt, neg
+                        while isinstance(an, tuple) and an and an[0] == "un" and an[1] == "Not": aneg = not aneg; an = an[2]
+                        if not (isinstance(an, tuple) and an and an[0] in ("call", "bin")): continue
+                        fe, te = (b["i"], t["targets"][0][1]), (b["i"], t["otherwise"])
+                        if aneg: fe, te = te, fe
+                        out.append(dict(bb=b["i"], kind="bool", cond=self.norm_cond(an), t_edge=te, f_edge=fe, raw=an, merged=True))
             else:
                 out.append(dict(bb=b["i"], kind="int", on=oo, targets={v: tgt for v, tgt in t["targets"]}, otherwise=t["otherwise"]))
         fn._branches = out
